@@ -258,6 +258,10 @@ NsEnumFiles(items, nspath) ==
        [] items[i].k = "namespace" -> NsEnumFiles(items[i].items, nspath \o <<items[i].name>>)
        [] OTHER -> <<>>])
 
+RECURSIVE AllIncludes(_)
+AllIncludes(items) == FlatSeq([i \in 1..Len(items) |-> CASE items[i].k = "include" -> << "#include <" \o items[i].header \o ">" >>
+                                                         [] items[i].k = "namespace" -> AllIncludes(items[i].items)
+                                                         [] OTHER -> <<>>])
 \* every class of the module (ignored ones included) in declaration order, for the preamble
 RECURSIVE AllClasses(_)
 AllClasses(items) == FlatSeq([i \in 1..Len(items) |-> CASE items[i].k = "class" -> <<items[i]>>
@@ -270,6 +274,9 @@ Preamble(inst, ignore) ==
    rtti |-> [i \in 1..Len(SelectSeq(cs, LAMBDA c : c.virtual)) |->
                [cpp |-> CollectorCpp(SelectSeq(cs, LAMBDA c : c.virtual)[i]),
                 name |-> Collector(SelectSeq(cs, LAMBDA c : c.virtual)[i])]],
+   guids |-> [i \in 1..Len(SelectSeq(cs, LAMBDA c : \E j \in 1..Len(c.methods) : c.methods[j].name \in Whitelist)) |->
+                LET c == SelectSeq(cs, LAMBDA x : \E j \in 1..Len(x.methods) : x.methods[j].name \in Whitelist)[i] IN
+                [cpp |-> CollectorCpp(c), name |-> Collector(c)]],
    typedefs |-> [i \in 1..Len(SelectSeq(cs, LAMBDA c : c.templated)) |->
                    [target |-> SelectSeq(cs, LAMBDA c : c.templated)[i].cpp, alias |-> SelectSeq(cs, LAMBDA c : c.templated)[i].name]]]
 =============================================================================
